@@ -163,7 +163,7 @@ func newSession(seed uint64) (*hx.World, *bmc.V2Session, error) {
 }
 
 func TestFaultFree(t *testing.T) {
-	ev.Check(t, "TestFaultFree", ev.PickN(400, 40000), func(t *rapid.T) {
+	ev.Check(t, "TestFaultFree", ev.PickN(400, 100000), func(t *rapid.T) {
 		r := genRepo().Draw(t, "repo")
 		w, s, err := newSession(rapid.Uint64().Draw(t, "seed"))
 		if err != nil {
